@@ -73,6 +73,10 @@ theorem scheme_members_accepted :
 
 theorem default_delta : defaultDelta = [("generalized_rush_larsen", "1e-08"), ("hybrid_rush_larsen", "1e-08")] := by decide +kernel
 
+/-- C06: neither Rush–Larsen generator consults the "certainly non-zero" shortcut that would
+drop the `|g| > delta` guard. -/
+theorem rl_always_guarded : rlShortcut.all (fun r => r.2 == false) = true ∧ rlShortcut.length = 2 := by decide +kernel
+
 def isPermOf (s : String) (letters : List Char) : Bool :=
   s.toList.length == letters.length && letters.all (fun c => s.toList.count c == 1)
 
